@@ -268,8 +268,35 @@ func branchTags(sc Scenario, tw Transcript) []string {
 		}
 		return "latches-empty-headers"
 	}
+	gone := false
 	for _, st := range sc.Steps {
+		if gone {
+			switch st.K {
+			case "SetH":
+				add("after-ctx-end:SetHeader:latched-%v:empty-%v", sent, len(st.MD) == 0)
+				pending = pending || len(st.MD) > 0
+			case "SendH":
+				add("after-ctx-end:SendHeader:latched-before-%v:pending-%v", sent, pending)
+				sent = true
+			case "SetT":
+				add("after-ctx-end:SetTrailer:empty-%v", len(st.MD) == 0)
+			case "S2C":
+				add("after-ctx-end:SendMsg")
+			case "RecvEOF":
+				add("after-ctx-end:RecvMsg")
+			case "Ret":
+				add("after-ctx-end:Close:%s:nil-%v", kind, st.Ok)
+			}
+			continue
+		}
 		switch st.K {
+		case "CtxEnd":
+			what := "cancel"
+			if st.DL {
+				what = "deadline"
+			}
+			add("ctx-end-handler-goes-on:%s:%s:headers-%v:halfclosed-%v:trailer-%v", what, kind, sent, half, trl)
+			gone = true
 		case "SetH":
 			switch {
 			case len(st.MD) == 0:
@@ -347,4 +374,119 @@ func branchTags(sc Scenario, tw Transcript) []string {
 	}
 	sort.Strings(out)
 	return out
+}
+
+// ---- the guard of the theorems (C13Judge.wf), replicated to report how many generated scenarios it admits ----
+
+func retWF(st Step) bool { return st.Ok || st.Plain || (st.Code >= 1 && st.Code <= 16) }
+
+func inFragment(sc Scenario) bool {
+	if sc.PreCancel {
+		return len(sc.Steps) == 0
+	}
+	half, sent, infl := autoRecv(sc.Shape), false, false
+	ss, cs, hasStream := serverStreams(sc.Shape), clientStreams(sc.Shape), srvHasStream(sc.Shape)
+	for i, st := range sc.Steps {
+		rest := sc.Steps[i+1:]
+		switch st.K {
+		case "C2S":
+			if !cs || half {
+				return false
+			}
+		case "S2C":
+			if ss {
+				sent, infl = true, false
+			} else {
+				return hasStream && len(rest) == 1 && rest[0].K == "Ret" && retWF(rest[0])
+			}
+		case "SetH", "SetT":
+		case "SendH":
+			infl = infl || !sent
+			sent = true
+		case "CloseSend":
+			if !cs || half {
+				return false
+			}
+			half = true
+		case "RecvEOF":
+			if !hasStream || !half {
+				return false
+			}
+		case "CHeader":
+			if sc.Shape == "unary" || !sent {
+				return false
+			}
+			infl = false
+		case "Ret":
+			return retWF(st) && len(rest) == 0
+		case "Cancel":
+			return !infl && len(rest) == 0
+		case "CtxEnd":
+			if infl || len(rest) == 0 {
+				return false
+			}
+			for j, p := range rest {
+				switch p.K {
+				case "SetH", "SendH", "SetT":
+				case "S2C":
+					if !hasStream {
+						return false
+					}
+				case "RecvEOF":
+					if !hasStream || half {
+						return false
+					}
+				case "Ret":
+					return retWF(p) && j == len(rest)-1
+				default:
+					return false
+				}
+			}
+			return false
+		default:
+			return false
+		}
+	}
+	return false
+}
+
+// ---- a caller that is itself a handler: its own incoming metadata must not reach the wrapped server ----
+
+type mdProbeSrv struct {
+	testproto.UnimplementedTestApiServer
+	seen chan metadata.MD
+}
+
+func (s *mdProbeSrv) Unary(ctx context.Context, _ *testproto.UnaryRequest) (*testproto.UnaryResponse, error) {
+	md, _ := metadata.FromIncomingContext(ctx)
+	s.seen <- md.Copy()
+	return &testproto.UnaryResponse{}, nil
+}
+
+// the calling context carries incoming metadata (the caller is serving a request of its own) and
+// either no outgoing metadata at all or some: the handler sees exactly the outgoing metadata
+func callerIncomingCases(o *vcoq.Out) {
+	srv := &mdProbeSrv{seen: make(chan metadata.MD, 1)}
+	cc := wrap.ServerToClient(testproto.TestApi_ServiceDesc, srv)
+	for _, out := range [][][2]int{nil, {{0, 3}}, {{1, 4}, {1, 5}}} {
+		ctx := metadata.NewIncomingContext(context.Background(), metadata.Pairs(keyName(1), "99", keyName(2), "98"))
+		if out != nil {
+			ctx = metadata.NewOutgoingContext(ctx, mkMD(out))
+		}
+		ctx, cancel := context.WithTimeout(ctx, stepTimeout)
+		err := cc.Invoke(ctx, testproto.TestApi_Unary_FullMethodName, &testproto.UnaryRequest{}, &testproto.UnaryResponse{})
+		cancel()
+		if err != nil {
+			o.Directs = append(o.Directs, vcoq.Direct{What: "wrap: unary call from a context with incoming metadata failed: " + err.Error(), Class: "blocked", Replay: map[string]any{"outgoing": out}})
+			continue
+		}
+		got := userMD(<-srv.seen)
+		if want := userMD(mkMD(out)); !sameMD(got, want) {
+			o.Directs = append(o.Directs, vcoq.Direct{
+				What:   fmt.Sprintf("wrap: the handler's incoming metadata is %v, the client attached %v (the calling context's own incoming metadata was hk1=99 hk2=98): request metadata is not what was sent", got, want),
+				Class:  "metadata-lost",
+				Replay: map[string]any{"outgoing": out, "caller_incoming": "hk1=99 hk2=98", "handler_saw": got},
+			})
+		}
+	}
 }
